@@ -1,5 +1,6 @@
 pub mod cborw;
 pub mod eval;
+pub mod obs;
 pub mod ops;
 pub mod pool;
 pub mod project;
